@@ -211,6 +211,16 @@ class World:
             return self._invalid(r["g"], en, t)
         raise KeyError(a)
 
+    def prebuild(self, r: Dict[str, Any]) -> None:
+        a, t = r["a"], r.get("t", [])
+        if a == "op1":
+            self._op(("1", r["g"], self.kind[t[0]]), lambda: speclib.make_operation(r["g"], self.kind[t[0]]))
+        elif a == "opn":
+            self._op(("n", r["g"]), lambda: speclib.make_operation(r["g"], "X"))
+        elif a == "opk":
+            kinds = [self.kind[i] for i in t]
+            self._op(("k", tuple(r["g"]), tuple(kinds)), lambda: speclib.make_kron_operation(list(r["g"]), kinds))
+
     def _op(self, key: Any, factory: Callable[[], Any]) -> Any:
         if not self.reuse_ops:
             return factory()
